@@ -163,10 +163,59 @@ def mode_order_rules(ctx):
         ctx.floor("C06.i", "loop iterations compiling a mode (%s)" % tag, n_iter, 1)
 
 
+CONFIG_API = [
+    # (function, what every return path must return — printed term with & * ( ) removed, writes: {field: value} or None)
+    (r"pattern::Pattern::new$", "Patternpattern, token_type, None", {}),
+    (r"pattern::Pattern::with_lookahead$", "Patternself.pattern, self.token_type, Somelookahead", {}),
+    (r"pattern::Pattern::set_token_type$", None, {"token_type": "token_type"}),
+    (r"pattern::Pattern::pattern$", "self.pattern", {}),
+    (r"pattern::Pattern::terminal_id$", "self.token_type", {}),
+    (r"pattern::Pattern::lookahead$", "self.lookahead", {}),
+    (r"pattern::Lookahead::new$", "Lookaheadis_positive, pattern", {}),
+    (r"pattern::Lookahead::pattern$", "self.pattern", {}),
+    (r"pattern::Lookahead::is_positive$", "self.is_positive", {}),
+]
+
+
+def config_api_rules(ctx, rule):
+    """The configuration types are plain records: a constructor stores its arguments, `with_lookahead` adds the lookahead and
+    keeps the rest, `set_token_type` writes that one field, a getter returns its field.  (A setter that rebuilds the value
+    with `..Default::default()` silently drops the lookahead: the scanner is then compiled from another configuration than
+    the one the user wrote.)"""
+    F = ctx.facts
+    for rx, want_ret, want_writes in CONFIG_API:
+        fn = F.fn(rx)
+        ctx.analysed_fn(fn)
+        ex, paths = run_fn(fn, F, Model())
+        short = M.short_name(fn.name)
+        rp = ret_paths(paths)
+        ctx.ob(rule, "config-api:%s:returns" % short, len(rp) >= 1 and len(rp) == len(paths), "%d of %d paths return" % (len(rp), len(paths)), fn.loc())
+        for p in rp:
+            got = re.sub(r"[&*()]", "", S.fstr(p.end[1]))
+            if want_ret is not None:
+                ctx.ob(rule, "config-api:%s:result" % short, got == want_ret, "returns %s" % S.fstr(p.end[1])[:100], fn.loc())
+            ws = {}
+            whole = []
+            for e in p.events:
+                if e[0] == "write" and e[2][0] != "local":
+                    if e[3]:
+                        ws[e[3][-1][1]] = re.sub(r"[&*()]", "", S.fstr(e[4]))
+                    else:
+                        whole.append(S.fstr(e[4]))
+            if whole:
+                # the whole record is replaced: it must be the old record with exactly the wanted fields changed
+                exp = "Pattern" + ", ".join(want_writes.get(f_, "self." + f_) for f_ in ("pattern", "token_type", "lookahead"))
+                okw = all(re.sub(r"[&*()]", "", w_) == exp for w_ in whole) and "Pattern::" in fn.name
+                ctx.ob(rule, "config-api:%s:writes" % short, okw, "replaces *self by %s" % [w_[:100] for w_ in whole], fn.loc())
+            else:
+                ctx.ob(rule, "config-api:%s:writes" % short, ws == want_writes, "writes %s" % (ws or "nothing"), fn.loc())
+
+
 def compiled_mode_rules(ctx, rule="C06.h"):
     """The compiled mode is the configured mode: same name, same transition table, automaton compiled from the whole,
     unmodified pattern list (also a side condition of C02: no configured pattern is lost before compilation)."""
     F = ctx.facts
+    config_api_rules(ctx, rule)
     # ---- C06.h the compiled mode keeps the configured transition table and name unchanged ---------
     sm = F.fn(r"CompiledScannerMode::try_from_scanner_mode$")
     ctx.analysed_fn(sm)
@@ -332,6 +381,43 @@ def transition_lookup_rules(ctx):
 
 
 
+def mode_switch_rules(ctx):
+    """C06.c (second half): next() enters the mode the shared lookup answers — the lookup peek_n consults as well."""
+    F = ctx.facts
+    # execute_possible_mode_switch: writes current_mode exactly when has_transition returns Some(m), := m
+    es = F.fn(r"ScannerImpl::execute_possible_mode_switch$")
+    ctx.analysed_fn(es)
+    ex, paths = run_fn(es, F, Model(), inline=r"ScannerImpl::has_transition$")
+    rp = ret_paths(paths)
+    ctx.floor("C06.c", "return paths of execute_possible_mode_switch", len(rp), 2)
+    for p in rp:
+        ht = p.calls(r"CompiledScannerMode::has_transition$")
+        if len(ht) != 1:
+            ctx.ob("C06.c", "switch-one-lookup", False, "%d has_transition calls on a path" % len(ht), es.loc())
+            continue
+        res = ht[0][4]
+        recv, tok = ht[0][3][0], ht[0][3][1]
+        # receiver = scanner_modes[current_mode] of self, read before any write
+        recv_s = S.vstr(recv)
+        ok_recv = recv[0] == "ref" and "scanner_modes" in recv_s and "current_mode" in recv_s
+        ok_tok = tok[0] == "app" and re.search(r"Match::token_type$", tok[1]) and "current_match" in S.vstr(tok)
+        ctx.ob("C06.c", "lookup-in-current-mode", ok_recv, "has_transition receiver is %s" % recv_s, es.loc(ht[0][1]))
+        ctx.ob("C06.c", "lookup-keyed-by-match-token-type", bool(ok_tok), "has_transition argument is %s" % S.vstr(tok), es.loc(ht[0][1]))
+        ws = heap_writes(p, "current_mode")
+        v = variant_of(ex, p, res)
+        if v == "Some":
+            payload = ("field", ("downcast", res, "Some"), "0")
+            ok = len(ws) == 1 and ws[0][2] == payload
+            ctx.ob("C06.c", "transition-enters-target", ok,
+                   "on Some(m): writes to current_mode = %s" % [S.vstr(w[2]) for w in ws], es.loc())
+            ctx.sample({"rule": "C06.c", "execute_possible_mode_switch": "Some(m) -> current_mode := %s" % (S.vstr(ws[0][2]) if ws else None)})
+        elif v == "None":
+            ctx.ob("C06.c", "no-transition-no-write", len(ws) == 0, "on None: %d write(s) to current_mode" % len(ws), es.loc())
+        else:
+            ctx.ob("C06.c", "switch-path-classified", False, "path does not branch on has_transition's result", es.loc())
+
+
+
 def check(ctx):
     F = ctx.facts
     ctx.trust("rustc type checker / MIR construction (nightly), the fact driver")
@@ -429,38 +515,7 @@ def check(ctx):
             ctx.ob("C06.c", "path-classified", False, "a path does not branch on the attempt's result", ff.loc())
     ctx.ob("C06.c", "both-outcomes-covered", seen == {"Some", "None"}, "outcomes seen: %s" % sorted(str(x) for x in seen), ff.loc())
 
-    # execute_possible_mode_switch: writes current_mode exactly when has_transition returns Some(m), := m
-    es = F.fn(r"ScannerImpl::execute_possible_mode_switch$")
-    ctx.analysed_fn(es)
-    ex, paths = run_fn(es, F, Model(), inline=r"ScannerImpl::has_transition$")
-    rp = ret_paths(paths)
-    ctx.floor("C06.c", "return paths of execute_possible_mode_switch", len(rp), 2)
-    for p in rp:
-        ht = p.calls(r"CompiledScannerMode::has_transition$")
-        if len(ht) != 1:
-            ctx.ob("C06.c", "switch-one-lookup", False, "%d has_transition calls on a path" % len(ht), es.loc())
-            continue
-        res = ht[0][4]
-        recv, tok = ht[0][3][0], ht[0][3][1]
-        # receiver = scanner_modes[current_mode] of self, read before any write
-        recv_s = S.vstr(recv)
-        ok_recv = recv[0] == "ref" and "scanner_modes" in recv_s and "current_mode" in recv_s
-        ok_tok = tok[0] == "app" and re.search(r"Match::token_type$", tok[1]) and "current_match" in S.vstr(tok)
-        ctx.ob("C06.c", "lookup-in-current-mode", ok_recv, "has_transition receiver is %s" % recv_s, es.loc(ht[0][1]))
-        ctx.ob("C06.c", "lookup-keyed-by-match-token-type", bool(ok_tok), "has_transition argument is %s" % S.vstr(tok), es.loc(ht[0][1]))
-        ws = heap_writes(p, "current_mode")
-        v = variant_of(ex, p, res)
-        if v == "Some":
-            payload = ("field", ("downcast", res, "Some"), "0")
-            ok = len(ws) == 1 and ws[0][2] == payload
-            ctx.ob("C06.c", "transition-enters-target", ok,
-                   "on Some(m): writes to current_mode = %s" % [S.vstr(w[2]) for w in ws], es.loc())
-            ctx.sample({"rule": "C06.c", "execute_possible_mode_switch": "Some(m) -> current_mode := %s" % (S.vstr(ws[0][2]) if ws else None)})
-        elif v == "None":
-            ctx.ob("C06.c", "no-transition-no-write", len(ws) == 0, "on None: %d write(s) to current_mode" % len(ws), es.loc())
-        else:
-            ctx.ob("C06.c", "switch-path-classified", False, "path does not branch on has_transition's result", es.loc())
-
+    mode_switch_rules(ctx)
     transition_lookup_rules(ctx)
 
     # ---- C06.f the attempt uses the automaton of the current mode ----------------------------------
